@@ -99,7 +99,8 @@ class C09(PoolCheck):
             kind = rng.choice(['canonical', 'list_extra', 'add_extra', 'preimport'])
             order = ['other.xsd', 'third.xsd', 'inc2.xsd', 'inc1.xsd']
             rng.shuffle(order)
-            assembly = {'kind': kind, 'order': order[:rng.randrange(1, 5)]}
+            assembly = {'kind': kind, 'order': order[:rng.randrange(1, 5)],
+                        'spell': [rng.randrange(6) for _ in range(4)]}
         else:
             assembly = {'kind': rng.choice(['canonical', 'build_false', 'text_source'])}
         steps = []
@@ -147,9 +148,12 @@ class C09(PoolCheck):
                     s.add_schema(p)
             s.build()
             return s
-        # multi: everything is reachable from main.xsd; registering parts first must not matter
+        # multi: everything is reachable from main.xsd; registering parts first must not matter, however the
+        # caller spells the location of the same file
         main = os.path.join(d, 'main.xsd')
-        extra = [os.path.join(d, n) for n in assembly['order']]
+        # a bare relative name is meaningful only where the API resolves it against the main schema's base URL
+        extra = [spell(d, n, sp if (sp != 5 or kind == 'list_extra') else 0)
+                 for n, sp in zip(assembly['order'], assembly.get('spell') or [0] * 9)]
         if kind == 'list_extra':
             return cls([main] + extra)
         if kind == 'add_extra':
@@ -288,6 +292,22 @@ class C09(PoolCheck):
             c = jcopy(case)
             c['assembly']['order'] = c['assembly']['order'][:-1]
             yield c
+
+
+def spell(d, name, how):
+    """The same file, spelled by the caller in different ways."""
+    p = os.path.join(d, name)
+    if how == 1:
+        return 'file://' + p
+    if how == 2:
+        return os.path.join(d, '.', name)
+    if how == 3:
+        return os.path.join(d, 'nodir', '..', name)
+    if how == 4:
+        return 'file://' + os.path.join(os.path.dirname(d), os.path.basename(d), '..', os.path.basename(d), name)
+    if how == 5:
+        return name          # relative: resolved against the main schema's base URL (its own directory)
+    return p
 
 
 def diff_kind(got, ref):
